@@ -13,3 +13,4 @@ func verifGrow(int, int)                    {}
 func verifKeyOrder(string, string)          {}
 func verifKeyOrderRV(string, reflect.Value) {}
 func verifYield(string)                     {}
+func verifDeps(string, int)                 {}
